@@ -12,6 +12,30 @@ CHECKS = {
          "The C05 schedule space plus the action 'drop reply future j', enabled at every scheduler step for every future that lives in its own task (so at each of its suspension points) and 'drop without polling'; survivors must resolve to their own replies and a request issued afterwards must succeed.",
          "Same trusted base as C05. Only reply futures are dropped, not rpc() calls in progress.",
          "deterministic simulation: seeded scheduler with cancellation injected at suspension points"),
+ "C08": ("S-sim", "exploration", "DESIGN.md §5 C08",
+         "Reply documents are generated from the NETCONF/Junos reply grammar (0-4 rpc-error elements of every type/tag/severity with optional children, positive indications, load-configuration-results with consistent or inconsistent load-error-count, in every order) and delivered through the real receive path to one request of each reply type among other outstanding requests. Oracle from the generated document: Ok implies no error-severity rpc-error and the operation's positive indication; Err(RpcError(list)) implies list == the document's rpc-errors in order.",
+         "Decided by generated peer behaviour, not by schedule. Trusted: the generator's own model of each rpc-error; comparison uses Display (type, severity) and Debug (tag, message, path, info) of the library's error values.",
+         "deterministic simulation: generated server replies through the real session, document-derived oracle"),
+ "C09": ("S-sim", "exploration", "DESIGN.md §5 C09",
+         "The server hello advertises a seeded subset of the RFC 6241 capabilities (every url-scheme combination) and optionally the Junos capability; 1-5 requests per session cover every builder with every datastore, filter type, option value and parameter. Soundness is judged on the content found on the wire (parsed by the harness) against a table transcribed from RFC 6241 section 8; completeness on the intended content; a rejected call must leave nothing on the wire.",
+         "Trusted: the requirement table in props/c09.rs (edit-config to <startup/> is treated like the library does). load-configuration from a URL cannot be constructed through the public API and is not covered.",
+         "deterministic simulation: capability-set x request matrix sampled through the real builders, wire-content oracle"),
+ "C10": ("S-sim", "exploration", "DESIGN.md §5 C10",
+         "Every text-valued and fragment-valued parameter site of every operation (19 sites) is driven with adversarial values (XML metacharacters, quotes, ']]>', the delimiter itself, entity look-alikes, comment/CDATA/PI openers, non-ASCII, empty) and generated well-formed fragments. The fake server frames the byte stream by the delimiter like a real one and parses with the harness's strict XML parser: exactly one message per rpc(), well-formed, value read back unchanged, fragments equal as subtrees.",
+         "Decided by generated parameter values. The agent's own payloads (policy names, comments) are covered through A-sim in C01. Attribute-valued parameters are generated without tab/newline.",
+         "deterministic simulation: adversarial parameter values through the real serialisers, strict server-side parse"),
+ "C12": ("S-sim + R-sim(TLS)", "exploration", "DESIGN.md §5 C12",
+         "Seeded: the hello matrix (base 1.0/1.1/both/neither x other capabilities x session-id variants x namespace style x element order x malformed hellos) under permuted scheduling of the simultaneous hello exchange (hello available early, or server waits for the client's hello; client send back-pressure). Oracle: established iff well-formed, valid session-id and a common base version; negotiated = highest common; reported id and capability set = the hello's; first rpc succeeds.",
+         "The framing half (a conforming :base:1.1 peer uses chunked framing) needs the real transports and is run over real TLS as the enumerated part.",
+         "deterministic simulation: hello matrix x exchange order; framing against a conforming peer over the real TLS transport"),
+ "C13": ("S-sim", "exploration", "DESIGN.md §5 C13",
+         "Metamorphic pairs: each generated hello / rpc-reply / configuration document is serialised canonically and under a seeded composition of information-preserving rewrites (8 kinds), both are parsed by the real readers; accept/reject and value must agree. A divergence is narrowed to a single rewrite site; the class (message kind, rewrite, element) identifies the finding, and a known divergence does not hide another one in the same message.",
+         "Trusted: the harness serialiser (self-checked on every run: both serialisations must be the same document for the harness's own parser).",
+         "deterministic simulation: metamorphic serialisation pairs through the real readers"),
+ "C14": ("S-sim", "exploration", "DESIGN.md §5 C14",
+         "A session with 1-4 outstanding requests in separate tasks; the hello or one reply is replaced by a mutation of the valid message (16 mutation kinds incl. truncation at any offset, splices, byte flips, invalid UTF-8, huge numbers, 64 KiB / 4 MiB text, deep nesting, random bytes). Oracle: no panic, quiescence within the step budget, every other request still resolves to its own reply (at most one innocent reader may err), no poll hangs (watchdog). The same mutations are fed to the agent's two configuration readers.",
+         "Mutations that name another outstanding message-id are skipped. A non-returning poll is caught by a 20 s real-time watchdog (class spin).",
+         "deterministic simulation: mutated server bytes with other requests outstanding, seeded delivery order"),
 }
 
 def main():
